@@ -59,6 +59,11 @@ def run(ctx):
     from checks.c10 import load
 
     prog, S, M = load(ctx.repo)
+
+    from sa.xmlchemy_model import ALL_PARTS, mechanism_gate  # noqa: F401
+
+
+    mechanism_gate(ctx, M, ALL_PARTS)
     T = Types(prog, M)
     hints = _hints()
     ctx.level = "other"
